@@ -171,10 +171,16 @@ class PyDict:
 class View:
     """Read-only window on a state for contracts: names / attributes resolve through the heap."""
 
-    def __init__(self, ctx, env, heap):
+    def __init__(self, ctx, env, heap, trace=None):
         object.__setattr__(self, '_c', ctx)
         object.__setattr__(self, '_env', env)
         object.__setattr__(self, '_heap', heap)
+        object.__setattr__(self, '_trace', trace)
+
+    def ghost(self, kind):
+        """ghost results recorded by library models ON THIS PATH, in call order: e.g. 'searchsorted' -> [index, ...],
+        'extreme' -> [(value, attaining index, array), ...] -- witnesses contracts may name in lemma chains"""
+        return [y[1:] if len(y) > 2 else y[1] for tag, y in (self._trace or []) if tag == 'ghost' and y[0] == kind]
 
     def _wrap(self, v):
         if isinstance(v, Ref):
